@@ -537,6 +537,8 @@ impl VisitMut for LoopNumber {
 enum Target {
     Let(String, usize),
     Call(String, usize),
+    New(String, usize),
+    QCall(String, usize),
     LoopMarker(usize),
 }
 
@@ -600,6 +602,27 @@ impl<'ast> Visit<'ast> for Locator {
     }
     fn visit_expr_call(&mut self, c: &'ast syn::ExprCall) {
         visit::visit_expr_call(self, c);
+        if let Target::QCall(name, n) = &self.target {
+            // `<some::Type>::f(..)`: match on the last segment of the qualified self type
+            if let syn::Expr::Path(p) = &*c.func {
+                if let Some(q) = &p.qself {
+                    if let syn::Type::Path(tp) = &*q.ty {
+                        let last = tp
+                            .path
+                            .segments
+                            .last()
+                            .map(|s| s.ident.to_string())
+                            .unwrap_or_default();
+                        if self.hit.is_none() && &last == name {
+                            if self.seen == *n {
+                                self.hit = Some(self.stack.clone());
+                            }
+                            self.seen += 1;
+                        }
+                    }
+                }
+            }
+        }
         if let Target::Call(name, n) = &self.target {
             if let syn::Expr::Path(p) = &*c.func {
                 let last = p
@@ -616,6 +639,23 @@ impl<'ast> Visit<'ast> for Locator {
                 }
             }
         }
+    }
+    fn visit_expr_struct(&mut self, st: &'ast syn::ExprStruct) {
+        if let Target::New(name, n) = &self.target {
+            let last = st
+                .path
+                .segments
+                .last()
+                .map(|s| s.ident.to_string())
+                .unwrap_or_default();
+            if self.hit.is_none() && &last == name {
+                if self.seen == *n {
+                    self.hit = Some(self.stack.clone());
+                }
+                self.seen += 1;
+            }
+        }
+        visit::visit_expr_struct(self, st);
     }
     fn visit_stmt_macro(&mut self, m: &'ast syn::StmtMacro) {
         if let Target::LoopMarker(k) = &self.target {
@@ -686,6 +726,18 @@ pub fn place_anchor(block: &mut syn::Block, anchor: &str) -> Result<(), String> 
             (
                 Target::Let(name, n),
                 if kind == "after-let" { "after" } else { "before" },
+            )
+        } else if kind == "after-qcall" || kind == "before-qcall" {
+            let (name, n) = split_count(rest);
+            (
+                Target::QCall(name, n),
+                if kind == "after-qcall" { "after" } else { "before" },
+            )
+        } else if kind == "after-new" || kind == "before-new" {
+            let (name, n) = split_count(rest);
+            (
+                Target::New(name, n),
+                if kind == "after-new" { "after" } else { "before" },
             )
         } else if kind == "after-call" || kind == "before-call" {
             let (name, n) = split_count(rest);
